@@ -102,6 +102,17 @@ def _pure(expr):
     return True
 
 
+def _fill_empty(stmts):
+    """blocks emptied by a removal get a `pass`"""
+    for s_ in stmts:
+        for n in ast.walk(s_):
+            for field in ('body', 'orelse', 'finalbody'):
+                blk = getattr(n, field, None)
+                if field == 'body' and isinstance(blk, list) and not blk and isinstance(n, (ast.If, ast.For, ast.While, ast.With, ast.Try, ast.ExceptHandler)):
+                    n.body = [ast.Pass()]
+    return stmts
+
+
 def _terminates(stmts):
     """control never falls off the end of the statement list"""
     if not stmts:
@@ -552,6 +563,9 @@ class Flattener(object):
                     repl = ast.copy_location(ast.Name(id=res, ctx=ast.Load()), call)
                     stmt = _ReplaceNode(call, repl).visit(stmt)
                     tail = [stmt]
+                    merged = self.coalesce_tuple_result(new_body, stmt, res)
+                    if merged is not None:
+                        new_body, tail = merged, []
             except _NoInline:
                 self.skipped.append(callee.key)
                 continue
@@ -577,6 +591,47 @@ class Flattener(object):
             for h in stmt.handlers:
                 h.body = self.rewrite_block(h.body, cls, stack)
         return [stmt]
+
+    def coalesce_tuple_result(self, body, stmt, res):
+        """a, b = helper(...) where every return of the helper is a tuple of its own locals: the locals take the names
+        of the targets (they had been renamed away from exactly those names), the packing and unpacking disappear.
+        Exact for normal completion; not applied when the call sits in a try of the caller."""
+        if not (isinstance(stmt, ast.Assign) and len(stmt.targets) == 1 and isinstance(stmt.targets[0], ast.Tuple) and
+                isinstance(stmt.value, ast.Name) and stmt.value.id == res and
+                all(isinstance(t, ast.Name) for t in stmt.targets[0].elts)):
+            return None
+        targets = [t.id for t in stmt.targets[0].elts]
+        packs = [n for b in body for n in ast.walk(b) if isinstance(n, ast.Assign) and len(n.targets) == 1 and
+                 isinstance(n.targets[0], ast.Name) and n.targets[0].id == res]
+        uses = [n for b in body for n in ast.walk(b) if isinstance(n, ast.Name) and n.id == res and isinstance(n.ctx, ast.Load)]
+        if not packs or uses:
+            return None
+        mapping = {}
+        for pk in packs:
+            v = pk.value
+            if not (isinstance(v, ast.Tuple) and len(v.elts) == len(targets) and all(isinstance(e, ast.Name) for e in v.elts)):
+                return None
+            for e, t in zip(v.elts, targets):
+                if mapping.setdefault(e.id, t) != t:
+                    return None
+        if len(set(mapping.values())) != len(mapping):
+            return None
+        present = set()
+        for b in body:
+            present |= _all_names(b)
+        if any(t in present for t in targets):
+            return None
+        ren = dict(mapping)
+
+        class Drop(ast.NodeTransformer):
+            def visit_Assign(self, n):
+                return None if any(n is pk for pk in packs) else self.generic_visit(n)
+        out = []
+        for b in body:
+            b2 = Drop().visit(b)
+            if b2 is not None:
+                out.append(_Subst({}, ren).visit(b2))
+        return _fill_empty(out)
 
     def direct_test(self, stmt, call, body):
         """`if helper(...): X else: Y` (or `if not helper(...)`): every `return e` of the helper becomes
@@ -783,6 +838,14 @@ class Flattener(object):
                 nm = ast.Name(id=name, ctx=ast.Load())
                 s.test = ast.copy_location(ast.UnaryOp(op=ast.Not(), operand=nm), s.test) if neg else ast.copy_location(nm, s.test)
                 return self._anyall_loop(kind, gen, name, s) + [s]
+        # while True: if c: break; rest   ==>   while not c: rest
+        if isinstance(s, ast.While) and isinstance(s.test, ast.Constant) and s.test.value is True and not s.orelse and s.body and \
+                isinstance(s.body[0], ast.If) and not s.body[0].orelse and len(s.body[0].body) == 1 and isinstance(s.body[0].body[0], ast.Break) \
+                and len(s.body) > 1:
+            c = s.body[0].test
+            neg = c.operand if (isinstance(c, ast.UnaryOp) and isinstance(c.op, ast.Not)) else ast.copy_location(ast.UnaryOp(op=ast.Not(), operand=c), c)
+            self.desugared += 1
+            return [ast.copy_location(ast.While(test=neg, body=s.body[1:], orelse=[]), s)]
         # value <- c ? a : b        (return / assignment to one name)
         def split(value, make):
             if isinstance(value, ast.IfExp):
